@@ -12,7 +12,7 @@
    responders of every length, every snapshot and every mirror — `_partial`; the refutation of the unguarded statement
    by a witness on the responder level and on the full world model (the history replayed on the server; known finding). *)
 From Coq Require Import List NArith Bool.
-From Gluon Require Import Model.Responders Model.Session Proofs.MirrorProofs Proofs.MergeProofs Proofs.SessionWitness.
+From Gluon Require Import Model.Responders Model.Session Proofs.MirrorProofs Proofs.MergeProofs Proofs.PopProofs Proofs.SessionWitness.
 Import ListNotations.
 Open Scope N_scope.
 
@@ -58,6 +58,24 @@ Proof. exact mirror_refuted. Qed.
 Print Assumptions C01_refuted.
 
 (* ... and on the world model, with the history that was replayed on the real server (known finding C01-own-overtakes-queued) *)
+(* EXISTS responders are handled in queue order (= UID order) whatever the flush: what a flush that must not send
+   EXPUNGE handles of them is a prefix; once one is held back every later one is (repaired defect, fix 9640c73: a
+   message put back under a lower UID used to be inserted below a newer message that had been announced meanwhile —
+   sequence numbers shifted without an EXPUNGE, C01_old_policy_shifts_sequence_numbers; replayed on the server:
+   corpus scenario held-readd-below-announced) *)
+Theorem C01_exists_announced_in_queue_order : forall rs skip readd p q,
+  pop_go false skip readd rs = (p, q) ->
+  filter is_rexists p ++ filter is_rexists q = filter is_rexists rs.
+Proof. exact pop_exists_in_order. Qed.
+Print Assumptions C01_exists_announced_in_queue_order.
+
+Theorem C01_old_policy_shifts_sequence_numbers :
+  client_agrees_after (pop_go_old [] below_queue) = Some false /\
+  client_agrees_after (pop_responders false below_queue) = Some true /\
+  filter is_rexists (fst (pop_go_old [] below_queue)) = [RExists 9 3 [] false false].
+Proof. exact old_policy_shifts_sequence_numbers. Qed.
+Print Assumptions C01_old_policy_shifts_sequence_numbers.
+
 Theorem C01_world_refuted :
   exists m sn, mirror_after 2 1 c01_history 0 = (Some m, Some sn) /\ agree m sn = false /\
                map sm_uid sn = [1; 2] /\ map fst m = [Some 2; None].
